@@ -637,6 +637,76 @@ def tr_level(tree):
     return f"Definition level_index_src (nr r : nat) : nat := {expr}."
 
 
+# ---- subclasscheck (mro.py): the generic-alias branch -------------------------------------------------------------
+def tr_gen_sub(tree):
+    """if o1 or o2: o1 = o1 or t1; o2 = o2 or t2; <decision over issubclass(o1, o2), o2 is t2, len(args1) vs len(args2),
+    all(subclasscheck(a1, a2) for a1, a2 in zip(args1, args2))>
+    -> gen_sub_src (osub plain : bool) (n1 n2 : nat) (args_ok : bool) : bool
+       osub = issubclass(o1, o2), plain = (o2 is t2), n1 / n2 = number of type arguments, args_ok = the argument-wise test"""
+    fn = None
+    for n in tree.body:
+        if isinstance(n, ast.FunctionDef) and n.name == "subclasscheck":
+            fn = n
+    if fn is None:
+        raise Unsupported("subclasscheck not found")
+    blk = [st for st in fn.body if isinstance(st, ast.If) and ast.unparse(st.test) == "o1 or o2"]
+    if len(blk) != 1:
+        raise Unsupported("the `if o1 or o2:` block")
+    body = [st for st in blk[0].body if not (isinstance(st, ast.Expr) and isinstance(st.value, ast.Constant))]
+    if [ast.unparse(x) for x in body[:2]] != ["o1 = o1 or t1", "o2 = o2 or t2"]:
+        raise Unsupported("origin defaults")
+    SKIP = {"args1 = get_args(t1)", "args2 = get_args(t2)"}
+    ATOMS = {"issubclass(o1, o2)": "osub", "o2 is t2": "plain", "o2 is not t2": "negb plain"}
+    ALL = "all((subclasscheck(a1, a2) for a1, a2 in zip(args1, args2)))"
+
+    def num(e):
+        src = ast.unparse(e)
+        if src == "len(args1)":
+            return "n1"
+        if src == "len(args2)":
+            return "n2"
+        raise Unsupported("operand " + src)
+
+    def cond(e):
+        src = ast.unparse(e)
+        if src in ATOMS:
+            return ATOMS[src]
+        if isinstance(e, ast.Compare) and len(e.ops) == 1:
+            a, b = num(e.left), num(e.comparators[0])
+            tbl = {ast.Eq: f"Nat.eqb {a} {b}", ast.NotEq: f"negb (Nat.eqb {a} {b})", ast.Lt: f"Nat.ltb {a} {b}", ast.Gt: f"Nat.ltb {b} {a}",
+                   ast.LtE: f"Nat.leb {a} {b}", ast.GtE: f"Nat.leb {b} {a}"}
+            if type(e.ops[0]) in tbl:
+                return "(" + tbl[type(e.ops[0])] + ")"
+        if isinstance(e, ast.BoolOp):
+            return "(" + (" && " if isinstance(e.op, ast.And) else " || ").join(cond(v) for v in e.values) + ")"
+        if isinstance(e, ast.UnaryOp) and isinstance(e.op, ast.Not):
+            return "negb (" + cond(e.operand) + ")"
+        raise Unsupported("condition " + src[:60])
+
+    def ret(e):
+        src = ast.unparse(e)
+        if src == "True":
+            return "true"
+        if src == "False":
+            return "false"
+        if src.replace(" ", "") == ALL.replace(" ", "") or src.replace(" ", "") == ALL.replace("((", "(").replace("))", ")").replace(" ", ""):
+            return "args_ok"
+        raise Unsupported("result " + src[:80])
+
+    def go(b):
+        b = [st for st in b if ast.unparse(st) not in SKIP and not (isinstance(st, ast.Expr) and isinstance(st.value, ast.Constant))]
+        if len(b) == 1 and isinstance(b[0], ast.Return):
+            return ret(b[0].value)
+        if len(b) >= 1 and isinstance(b[0], ast.If):
+            i = b[0]
+            els = i.orelse if i.orelse else b[1:]
+            if not els:
+                raise Unsupported("if without else")
+            return f"(if {cond(i.test)} then {go(i.body)} else {go(els)})"
+        raise Unsupported("statement " + ast.unparse(b[0])[:60])
+    return "Definition gen_sub_src (osub plain : bool) (n1 n2 : nat) (args_ok : bool) : bool :=\n  " + go(body[2:]) + "."
+
+
 HEADER = """(* GENERATED by vlib/translator/leaf.py from /repo/src/ovld/{mro,typemap,dependent,types}.py on every run -- do not edit.
    Proofs/LeafAgree.v proves these equal to the hand-written definitions the model uses. *)
 From Coq Require Import ZArith List Bool Arith.
@@ -664,6 +734,7 @@ FALLBACK = {
     "inter_order": "Definition inter_order_src (cmp : list order) : order := match cmp with [] => NONE | _ => if existsb le_same cmp then LESS else MORE end.",
     "edge": "Definition edge_src (o : order) : option bool := edge_dir o.",
     "level": "Definition level_index_src (nr r : nat) : nat := level_index nr r.",
+    "gen_sub": "Definition gen_sub_src (osub plain : bool) (n1 n2 : nat) (args_ok : bool) : bool := gen_sub_decide osub plain n1 n2 args_ok.",
     "tail": "Definition cls_tail_src (s12 s21 : bool) : order := if s12 && s21 then SAME else if s12 then LESS else if s21 then MORE else NONE.",
 }
 
@@ -687,6 +758,7 @@ def regenerate():
             ("pull", lambda: tr_pull(tm_tree)),
             ("tail", lambda: tr_tail(mro_tree)),
             ("missing", lambda: tr_missing(tm_tree)),
+            ("gen_sub", lambda: tr_gen_sub(mro_tree)),
             ("edge", lambda: tr_edge(mro_tree)),
             ("level", lambda: tr_level(tm_tree)),
             ("dep_lt", lambda: tr_dep_lt(dep_tree)),
